@@ -39,4 +39,14 @@ prop("C03", "exploration",
      _b(2000, 60, 100000, 1200))
 
 NOT_APPLICABLE = {}
-HOOK_COMMITS = ["a570d77", "0974401", "833dae9"]
+HOOK_COMMITS = ["a570d77", "0974401", "833dae9", "d356e32", "3e7972b", "deee054", "809cbd9"]
+
+prop("C04", "exploration",
+     "lifecycle world: 1-2 real requestors and a real responder, 1-3 requests, per request a scripted environment (request hook accept/terminate/pause/reject, block hook pause/error at block k, requestor response-hook error, requestor block-hook pause/error) and up to two caller/operator actions (context cancel, Cancel API, pause/unpause on either side, updates) enabled from a drawn step; fault family adds send failures, lost acks, connect failures, disconnects, store read errors and small retry counts; after heal every paused exchange is unpaused, then every open request is cancelled by its caller and drained; distinct = distinct trace hash",
+     _b(1500, 90, 60000, 1500), probes=["act:ctxcancel", "act:apicancel", "act:pause"])
+prop("C05", "exploration",
+     "same lifecycle world without requestor-side pause; oracle over the responder's completed / cancelled / network-error listeners, PeerState, Stats and ConnManager protect/unprotect for every request the responder's request hook saw",
+     _b(1500, 90, 60000, 1500), probes=["act:bcancel", "act:bpause"])
+prop("C23", "exploration",
+     "same lifecycle world; at every quiescent step at which no goroutine of the node is held at one of the simulator's internal yields, PeerState(...) of every node is compared with its task queue through Diagnostics(); Stats() must be zero at the end",
+     _b(1500, 90, 60000, 1500), probes=["c23-peerstate-compared"])
